@@ -2984,6 +2984,13 @@ class C17(Base):
         out.append(Stream("S3-export-to-fresh-chain", ll, fields=f, oracle=c17_make_fresh_oracle(expect), shrink=False))
         out.append(Stream("S3-genesis-documents", c17_doc_lines(r.fork(2), self.n(tier, 120, 1500)), fields=f, oracle=c17_doc_oracle))
         out.append(Stream("S3-large-ledger", large_ledger_lines(Rng(seed * 1000 + 117))))
+        # everything that can be paused is paused: the export of an unchanged state is the same every time, before and after a restart
+        full = ["setup -"] + [msg_line("PauseAction", AUTHORITY, hx(a)) for a in reversed(ACTION_NAMES)] + \
+            [msg_line("PauseProtocol", AUTHORITY, hx(p_)) for p_ in reversed(PROTO_NAMES)] + \
+            [msg_line("PauseCrossChains", AUTHORITY, hx("PROTOCOL_CCTP"), hx("7"), hx("10"), hx("1"), hx("0")),
+             msg_line("PauseCrossChains", AUTHORITY, hx("PROTOCOL_INTERNAL"), hx("noble")), msg_line("PauseCrossChains", AUTHORITY, hx("PROTOCOL_IBC"), hx("channel-1"), hx("channel-0"))] + \
+            ["export"] * 12 + ["query PausedActions", "query PausedProtocols", "reimport"] + ["export"] * 8 + ["query PausedActions"] * 4
+        out.append(Stream("S3-everything-paused-repeated-exports", full, fields=f))
         return out
 
 
